@@ -258,6 +258,9 @@ def probe_open(image, how, lazy, scratch):
             font = TTFont(src, lazy=lazy)
         except TTLibError as e:
             return "TTLibError", str(e)[:60]
+        except MemoryError:
+            # induced by the harness' own address-space limit (a corrupt length makes read() ask for up to 4 GB)
+            return "memory-limit", ""
         except Exception as e:  # noqa
             return "OTHER", "%s: %s" % (type(e).__name__, str(e)[:100])
         try:
@@ -271,6 +274,8 @@ def probe_open(image, how, lazy, scratch):
                     d = reader[tag]
                 except TTLibError:
                     continue
+                except MemoryError:
+                    return "memory-limit", ""
                 except Exception as e:  # noqa
                     return "OTHER-READ", "%s reading %r: %s" % (type(e).__name__, tag, str(e)[:100])
                 if len(d) != want:
@@ -331,13 +336,13 @@ def exec_storage(ctx, h, scratch):
         res["states"].append("%s|%s|%s" % (h["font"], op[0], out))
         if not changed:
             probes["a.fault_was_identity"] = probes.get("a.fault_was_identity", 0) + 1
-        if strict and out not in ("TTLibError", "opened") and not res.get("violation"):
+        if strict and out not in ("TTLibError", "opened", "memory-limit") and not res.get("violation"):
             res["violation"] = {
                 "class": "open-damaged:%s:%s" % (out, detail.split(":")[0].split(" ")[0]),
                 "detail": "%s on %s (how=%s lazy=%s): %s" % (op, h["font"], h["how"], h["lazy"], detail),
                 "sig": {"font": h["font"], "op": op[0], "exc": detail.split(":")[0]},
             }
-        elif not strict and out not in ("TTLibError", "opened"):
+        elif not strict and out not in ("TTLibError", "opened", "memory-limit"):
             kx = "ext.exc." + detail.split(":")[0].split(" ")[0]
             probes[kx] = probes.get(kx, 0) + 1
     res["nontrivial"] = bool(h["ops"])
